@@ -150,6 +150,7 @@ def check(seed, n):
             text, kind = gen_program(rng, seed * 2003 + k)
             big = False   # --big-stack is not accepted in preprocess mode
             r = run_case(text, d, big)
+            proto.sample("roundtrip", {"text": text})
             if r == "skip":
                 continue
             evals += 1
